@@ -1564,6 +1564,13 @@ func (c *Core) serviceRequest(ranID int64, env nas.Envelope, tmsiIE *ngap.FiveGS
 	if int(u.NgKSI&7) != ue.P.NgKSI {
 		c.viol("svc.ngksi", "SERVICE REQUEST carries ngKSI %d, the current context is ngKSI %d", u.NgKSI&7, ue.P.NgKSI)
 	}
+	if ue.P.SvcReject != 0 {
+		// the AMF refuses the service request (congestion, implicitly deregistered ...): SERVICE REJECT
+		// with a 5GMM cause in a DownlinkNASTransport, TS 24.501 5.6.1.5; no context is set up
+		rej := c.protectDL(ue, 2, []byte{nas.EPD5GMM, 0, 0x4d, byte(ue.P.SvcReject)})
+		c.out("DownlinkNASTransport/ServiceReject", ue.Ordinal, c.dlNAS(ue, rej))
+		return
+	}
 	ue.SvcPending = true
 	indicated := false
 	if uds := u.Get(0x40); uds != nil && ue.SessActive {
